@@ -301,6 +301,28 @@ func runC08(c *Case) {
 		accepted++
 		checkRow("immediate", tk, "b = ?", id, want, cls+":key")
 	}
+	// values written by UPDATE (also changing the storage class of the column), in both columns
+	for j, v := range vals {
+		if j%3 != 1 {
+			continue
+		}
+		id := int64(7000 + j)
+		cls := c08Class(v)
+		if err := conn.Exec("insert into "+tv+"(k,a,b) values (?,?,?)", id, int64(j), "before"); err != nil {
+			continue
+		}
+		err := conn.Exec("update "+tv+" set a = ?, b = ? where k = ?", v, v, id)
+		c.Count("writes", 1)
+		want := fmt.Sprintf("i:%d|i:%d|t:before", id, j)
+		if err == nil {
+			want = fmt.Sprintf("i:%d|%s|%s", id, renderCell(v), renderCell(v))
+			c.Count("values_written_by_update", 1)
+		} else {
+			c.Count("refused-update:"+cls, 1)
+		}
+		checkRow("update", tv, "k = ?", id, want, cls+":update")
+		expV[want] = true
+	}
 	// unmentioned columns read NULL also when an older value of that column exists
 	// under a delete marker: one transaction (one write time), and a later one
 	for j, v := range vals {
@@ -355,12 +377,12 @@ func runC08(c *Case) {
 				got[row] = true
 				if !x.exp[row] && !strings.Contains(row, "other-writer") {
 					// find the written row with the same id to classify
-					violate("altered:"+stage+":"+x.name+":"+c08RowClass(row, x.exp), fmt.Sprintf("%s: row %s was never written like that", stage, short(row)))
+					violate("altered:"+stage+":"+x.name+":"+c08RowClass(row, x.exp, x.name == "key"), fmt.Sprintf("%s: row %s was never written like that", stage, short(row)))
 				}
 			}
 			for row := range x.exp {
 				if !got[row] {
-					violate("altered:"+stage+":"+x.name+":"+c08RowClass(row, nil), fmt.Sprintf("%s: written row %s is missing or changed", stage, short(row)))
+					violate("altered:"+stage+":"+x.name+":"+c08RowClass(row, nil, x.name == "key"), fmt.Sprintf("%s: written row %s is missing or changed", stage, short(row)))
 				}
 			}
 		}
@@ -428,7 +450,7 @@ func runC08(c *Case) {
 }
 
 // c08RowClass guesses the class of the differing cell for the signature.
-func c08RowClass(row string, exp map[string]bool) string {
+func c08RowClass(row string, exp map[string]bool, keyTable bool) string {
 	parts := strings.Split(row, "|")
 	for _, p := range parts {
 		switch {
@@ -442,7 +464,7 @@ func c08RowClass(row string, exp map[string]bool) string {
 		// the id is the first or last cell; find the expected row with the same id
 		for e := range exp {
 			ep := strings.Split(e, "|")
-			if (ep[0] == parts[0] && strings.HasPrefix(ep[0], "i:") && len(ep) == len(parts) && ep[2] == "NULL") || ep[len(ep)-1] == parts[len(parts)-1] && ep[len(ep)-1] != "NULL" {
+			if len(ep) == len(parts) && ((!keyTable && ep[0] == parts[0]) || (keyTable && ep[len(ep)-1] == parts[len(parts)-1])) {
 				for _, p := range ep {
 					if p == "t:" {
 						return "TEXT-empty"
